@@ -128,6 +128,10 @@ def detectencoding_str(input, final=False):  # noqa: C901
                         candidates &= ~CANDIDATE_UTF_32_BE
                     if c != b"a"[0]:
                         candidates &= ~CANDIDATE_CHARSET
+    if final and li < 4:
+        # no more data will follow, so xFF xFE (x00) can't be the start of
+        # the UTF-32 (LE) BOM anymore which leaves the UTF-16 (LE) BOM
+        candidates &= ~CANDIDATE_UTF_32_AS_LE
     if candidates == 0:
         return ("utf-8", False)
     if not (candidates & (candidates - 1)):  # only one candidate remaining
